@@ -256,11 +256,24 @@ func c17Property(t *rapid.T) {
 					if r.Options.GetFormatOptions(fmt.Sprintf("g%d", g)) != g {
 						fail("g%d: reader.New lost its own format options", g)
 					}
+					for o := 0; o < ng; o++ {
+						if o != g && r.Options.GetFormatOptions(fmt.Sprintf("g%d", o)) != nil {
+							fail("g%d: reader.New returned a reader holding the format options given to the reader of g%d", g, o)
+						}
+					}
 				case "newWriter":
 					f := c17WriteFormats[g%len(c17WriteFormats)]
-					w := writer.New(writer.WithFormat(f), writer.WithRenderOptions(&native.RenderOptions{Indent: g}))
+					w := writer.New(writer.WithFormat(f), writer.WithRenderOptions(&native.RenderOptions{Indent: g}), writer.WithFormatOptions(fmt.Sprintf("g%d", g), g))
 					if w.Options.Format != f || w.Options.RenderOptions.Indent != g {
 						fail("g%d: writer.New returned a writer configured with (%s, indent %d) instead of its own (%s, indent %d)", g, w.Options.Format, w.Options.RenderOptions.Indent, f, g)
+					}
+					if w.Options.GetFormatOptions(fmt.Sprintf("g%d", g)) != g {
+						fail("g%d: writer.New lost its own format options", g)
+					}
+					for o := 0; o < ng; o++ {
+						if o != g && w.Options.GetFormatOptions(fmt.Sprintf("g%d", o)) != nil {
+							fail("g%d: writer.New returned a writer holding the format options given to the writer of g%d", g, o)
+						}
 					}
 				case "regU", "unregU", "getU", "regS", "unregS", "getS":
 					in := regInput{Key: op.Key, Val: op.Val}
